@@ -1,0 +1,122 @@
+//go:build verif
+
+package bkl
+
+import (
+	"fmt"
+	"os"
+	"strconv"
+	"sync"
+	"sync/atomic"
+)
+
+// Runtime-monitoring hooks, compiled only with -tags verif.
+//
+// verifStep counts logical evaluation steps so that a harness can decide
+// non-termination by a step budget instead of by wall clock. verifEvent
+// records which document was merged into which, and which files were loaded.
+
+// VerifBudgetExceeded is the panic value used in-process when the step budget
+// is exceeded.
+type VerifBudgetExceeded struct{ Steps int64 }
+
+var (
+	verifSteps  atomic.Int64
+	verifBudget atomic.Int64
+	verifSites  [verifSiteCount]atomic.Int64
+
+	verifMu       sync.Mutex
+	verifEvents   []string
+	verifEventsOn atomic.Bool
+	verifTrace    *os.File
+	verifExit     bool
+)
+
+var VerifSiteNames = [verifSiteCount]string{
+	"process1", "process2", "process2String", "merge", "get", "loadFileAndParents",
+}
+
+func init() {
+	if s := os.Getenv("BKL_VERIF_STEPS"); s != "" {
+		n, err := strconv.ParseInt(s, 10, 64)
+		if err == nil {
+			verifBudget.Store(n)
+			verifExit = true
+		}
+	}
+
+	if path := os.Getenv("BKL_VERIF_TRACE"); path != "" {
+		fh, err := os.OpenFile(path, os.O_WRONLY|os.O_CREATE|os.O_APPEND, 0o644)
+		if err == nil {
+			verifTrace = fh
+			verifEventsOn.Store(true)
+		}
+	}
+}
+
+// VerifReset zeroes the counters and the event log and sets the step budget
+// (0 = unlimited). With events true, verifEvent records into the event log.
+func VerifReset(budget int64, events bool) {
+	verifSteps.Store(0)
+	verifBudget.Store(budget)
+
+	for i := range verifSites {
+		verifSites[i].Store(0)
+	}
+
+	verifMu.Lock()
+	verifEvents = nil
+	verifMu.Unlock()
+
+	verifEventsOn.Store(events || verifTrace != nil)
+}
+
+// VerifSteps returns the total and per-site step counts since VerifReset.
+func VerifSteps() (int64, [verifSiteCount]int64) {
+	var sites [verifSiteCount]int64
+
+	for i := range verifSites {
+		sites[i] = verifSites[i].Load()
+	}
+
+	return verifSteps.Load(), sites
+}
+
+// VerifEvents returns a copy of the event log since VerifReset.
+func VerifEvents() []string {
+	verifMu.Lock()
+	defer verifMu.Unlock()
+
+	return append([]string{}, verifEvents...)
+}
+
+func verifStep(site int) {
+	verifSites[site].Add(1)
+	n := verifSteps.Add(1)
+
+	b := verifBudget.Load()
+	if b > 0 && n > b {
+		if verifExit {
+			fmt.Fprintf(os.Stderr, "VERIF-STEP-BUDGET %d\n", n)
+			os.Exit(97)
+		}
+
+		panic(VerifBudgetExceeded{Steps: n})
+	}
+}
+
+func verifEvent(kind, a, b string) {
+	if !verifEventsOn.Load() {
+		return
+	}
+
+	verifMu.Lock()
+	defer verifMu.Unlock()
+
+	if verifTrace != nil {
+		fmt.Fprintf(verifTrace, "%s\t%s\t%s\n", kind, a, b)
+		return
+	}
+
+	verifEvents = append(verifEvents, kind+"\t"+a+"\t"+b)
+}
